@@ -16,6 +16,8 @@ func stringify(ty *Type, inProcess util.PtrSet) string {
 			return fmt.Sprintf("recursive-type %s@%p", ty.Kind, ty)
 		} else {
 			inProcess.Add(ty)
+			// 只标记处理中的类型: 共享子结构 (非递归) 不是递归类型
+			defer inProcess.Remove(ty)
 		}
 	}
 
